@@ -13,6 +13,7 @@ structure St where
   comps : List Nat
   wfs   : List Nat
   fuel  : Nat
+  n     : Nat
 
 def world0 : World :=
   { n := 0,
@@ -45,7 +46,7 @@ def variants : List (String × Cfg × World) :=
     (s!"V{bit a}{bit b}{bit c}",
      ({ cutAllOutputs := a, parentEmits := !b, automateInFinally := c } : Cfg), world0)
 
-def init : St := { vs := variants, obs := [], comps := [], wfs := [], fuel := 4000 }
+def init : St := { vs := variants, obs := [], comps := [], wfs := [], fuel := 4000, n := 0 }
 
 def St.mapW (s : St) (f : World → World) : St :=
   { s with vs := s.vs.map fun (t, c, w) => (t, c, f w) }
@@ -75,7 +76,7 @@ def step (s : St) (ws : List String) : St × List String :=
   match ws with
   | ["n", k] =>
     match k.toNat? with
-    | some k => (s.mapW fun w => { w with n := k }, [])
+    | some k => if s.n ≠ 0 then (s, ["bad-op"]) else ({ (s.mapW fun w => { w with n := k }) with n := k }, [])
     | none => (s, ["bad-op"])
   | ["fuel", k] =>
     match k.toNat? with
@@ -85,7 +86,8 @@ def step (s : St) (ws : List String) : St × List String :=
     let par : Option (Option Nat) := if p = "-" then some none else (p.toNat?).map some
     match i.toNat?, par, base.toNat? with
     | some i, some par, some base =>
-      if kind ∉ ["leaf", "wf", "macro"] then (s, ["bad-op"]) else
+      if kind ∉ ["leaf", "wf", "macro"] || i ≥ s.n || (match par with | some p => decide (p ≥ s.n) | none => false)
+      then (s, ["bad-op"]) else
       let s1 := s.mapW fun w =>
         { w with parent := updF w.parent i par, isWf := updF w.isWf i (kind = "wf"),
                  label := updF w.label i { base := base, tag := none } }
@@ -94,42 +96,57 @@ def step (s : St) (ws : List String) : St × List String :=
     | _, _, _ => (s, ["bad-op"])
   | "deps" :: i :: js =>
     match i.toNat?, nats js with
-    | some i, some js => (s.mapW fun w => { w with deps := updF w.deps i js }, [])
+    | some i, some js =>
+      if i ≥ s.n || js.any (· ≥ s.n) then (s, ["bad-op"]) else
+      (s.mapW fun w => { w with deps := updF w.deps i js }, [])
     | _, _ => (s, ["bad-op"])
   | "conns" :: c :: xs =>
     match c.toNat?, nats xs with
-    | some c, some xs => (s.mapW fun w => { w with g := { w.g with conns := updF w.g.conns c xs } }, [])
+    | some c, some xs =>
+      if c ≥ 6 * s.n || xs.any (· ≥ 6 * s.n) then (s, ["bad-op"]) else
+      (s.mapW fun w => { w with g := { w.g with conns := updF w.g.conns c xs } }, [])
     | _, _ => (s, ["bad-op"])
   | "starting" :: p :: xs =>
     match p.toNat?, nats xs with
-    | some p, some xs => (s.mapW fun w => { w with starting := updF w.starting p xs }, [])
+    | some p, some xs =>
+      if p ≥ s.n || xs.any (· ≥ s.n) then (s, ["bad-op"]) else
+      (s.mapW fun w => { w with starting := updF w.starting p xs }, [])
     | _, _ => (s, ["bad-op"])
   | ["automate", p, b] =>
     match p.toNat?, b.toNat? with
-    | some p, some b => (s.mapW fun w => { w with automate := updF w.automate p (b ≠ 0) }, [])
+    | some p, some b =>
+      if p ≥ s.n || b > 1 then (s, ["bad-op"]) else
+      (s.mapW fun w => { w with automate := updF w.automate p (b ≠ 0) }, [])
     | _, _ => (s, ["bad-op"])
   | "exec" :: is =>
     match nats is with
-    | some is => (s.mapW fun w => { w with hasExec := fun i => i ∈ is }, [])
+    | some is =>
+      if is.any (· ≥ s.n) then (s, ["bad-op"]) else (s.mapW fun w => { w with hasExec := fun i => i ∈ is }, [])
     | none => (s, ["bad-op"])
   | "fails" :: is =>
     match nats is with
-    | some is => (s.mapW fun w => { w with fails := fun i => i ∈ is }, [])
+    | some is =>
+      if is.any (· ≥ s.n) then (s, ["bad-op"]) else (s.mapW fun w => { w with fails := fun i => i ∈ is }, [])
     | none => (s, ["bad-op"])
   | ["truth", i, b] =>
     match i.toNat?, b.toNat? with
-    | some i, some b => (s.mapW fun w => { w with truth := updF w.truth i (some (b ≠ 0)) }, [])
+    | some i, some b =>
+      if i ≥ s.n || b > 1 then (s, ["bad-op"]) else
+      (s.mapW fun w => { w with truth := updF w.truth i (some (b ≠ 0)) }, [])
     | _, _ => (s, ["bad-op"])
   | "obs" :: t :: rest =>
     match t.toNat?, splitSlash rest with
     | some t, some (a, b) =>
       match nats a, nats b with
-      | some a, some b => ({ s with obs := (t, (a, b)) :: s.obs.filter (·.1 ≠ t) }, [])
+      | some a, some b =>
+        if t ≥ s.n || a.any (· ≥ s.n) || b.any (· ≥ s.n) then (s, ["bad-op"]) else
+        ({ s with obs := (t, (a, b)) :: s.obs.filter (·.1 ≠ t) }, [])
       | _, _ => (s, ["bad-op"])
     | _, _ => (s, ["bad-op"])
   | ["pull", t, par] =>
     match t.toNat?, par.toNat? with
     | some t, some par =>
+      if t ≥ s.n || par > 1 then (s, ["bad-op"]) else
       let look : Nat → List Nat × List Nat := fun x =>
         match s.obs.find? (·.1 = x) with
         | some (_, o) => o
